@@ -251,7 +251,7 @@ def _run(tape, clock, scratch, oproxy, osproxy):
         return threaded_case(tape, clock, scratch, oproxy, osproxy)
     run = Run(PROP)
     big = tape.draw(12) == 11          # 1 MiB boundary through the environment variable
-    limit_mode = 'env' if big else tape.choice(['arg', 'arg', 'env0', 'none', 'arg0'])
+    limit_mode = 'env' if big else tape.choice(['arg', 'arg', 'env0', 'none', 'arg0', 'attr'])
     big_under_limit = big and tape.draw(2) == 1      # more than 1 MiB, below a 2 MB limit: recorded and restored in full
     limit_bytes = (1 << 20) if big else tape.choice([1, 2, 7, 24, 100, 1000])
     by_keyword = bool(tape.draw(2))
@@ -262,6 +262,11 @@ def _run(tape, clock, scratch, oproxy, osproxy):
     os.environ.pop('PLAYBACK_INTERCEPTED_FILE_SIZE_LIMIT', None)
     if limit_mode == 'arg':
         limit_arg = limit_bytes / MB
+    elif limit_mode == 'attr':
+        # the handler is built with its default limit; the public attribute is assigned afterwards (the limit in force when a
+        # file is intercepted is the handler's limit at that moment)
+        limit_arg = None
+        run.probe('limit_assigned_after_construction')
     elif limit_mode == 'arg0':
         limit_arg, limit_bytes = tape.choice([0, 0.0]), 0     # an explicit limit of zero: every non-empty file is above it
         if tape.draw(2):
@@ -317,6 +322,8 @@ def _run(tape, clock, scratch, oproxy, osproxy):
         def build(recorder):
             in_handler = InputInterceptionFileDataHandler(2, 'file_path', limit_arg)
             out_handler = OutputInterceptionFileDataHandler(0, 'file_path', limit_arg)   # output handlers see the arguments without the instance
+            if limit_mode == 'attr':
+                in_handler.intercepted_size_limit = out_handler.intercepted_size_limit = limit_bytes / MB
             seen = {}
 
             class Svc(object):
